@@ -187,7 +187,7 @@ func runEVM(seed uint64, n int, outDir string, replay string) {
 			defer func() {
 				if p := recover(); p != nil {
 					o.Violate("evm-panic", fmt.Sprintf("panic: %v", p))
-					ans(fmt.Sprintf("panic %v", p))
+					o.Pad("panic %v", p)
 				}
 			}()
 			switch rc.Intn(12) {
